@@ -150,6 +150,11 @@ def random_dag_scripts(seed, count, nmax):
 
 class C03(Prop):
     pid = "C03"
+    level_text = ("Theorem C03_glitch_free over Model/Engine.v: for every acyclic raw graph, every dependents registration order, "
+                  "every set and order of fired sources, propagation terminates, each node with a changed input is updated exactly once "
+                  "after all its inputs settled, final firings equal the denotation, independent of all orders. Tie: update log (order "
+                  "included) and final firings of the real engine equal the model's on all DAGs up to the tier's size and random DAGs. "
+                  "FRP-level programs over such shapes are covered by the spec correspondence of C02/C13.")
     default_mode = "eng-run"
     design_ref = "DESIGN.md section 6 C03"
     rule = ("raw dependency graphs on the real engine: every DAG up to the tier's node count (edges low->high index) x every "
